@@ -9,7 +9,7 @@ import common
 from props import hmc_common as H
 
 ID = "C14"
-LEAN_MODULES = ["QProps.C14", "QProps.C14g"]
+LEAN_MODULES = ["QProps.C14", "QProps.C14g", "QProps.C14k"]
 THEOREMS = [
     "Verlet.verlet1_energy_local",
     "Verlet.verlet_energy_error_quadratic",
@@ -28,13 +28,28 @@ THEOREMS = [
     "Verlet.mb_forced_temperature",
     "Verlet.ke_reference_fresh",
     "Verlet.attempt_failed_restores",
+    # QProps/C14k.lean: the kinetic reference of Hamiltonian moves inside composites
+    "Verlet.reference_established",
+    "Verlet.reference_between_trials",
+    "Verlet.ke_reference_carried",
+    "Verlet.vetoed_member_leaves_reference",
+    "Verlet.failed_member_leaves_reference",
+    "Verlet.composite_energy_change",
+    "Verlet.composite_energy_change_any_reference",
+    "Verlet.two_members_energy_change",
+    "Verlet.pinned_second_member_overwrites_reference",
+    "Verlet.pinned_vetoed_member_leaks",
 ]
 RULE = (
     "real Verlet.integrate / maxwell_boltzmann_distribution / HamiltonianDisplacementMove / HamiltonianCanonical on real "
     "ase.Atoms (1-8 atoms, random masses 1-200 amu, thermal momenta 50-2000 K) with analytic calculators (harmonic wells, "
     "component-wise quartic wells, pairwise Morse, free flight) and EMT clusters; dt chosen as 0.02-0.5 of 1/omega_max, "
     "0-100 (quick) / 0-300 (thorough) steps, both values of apply_constraints; scripted normal draws and check_move "
-    "verdicts (max_attempts 1-4); a case is non-trivial when at least one integration step or one draw happens"
+    "verdicts (max_attempts 1-4), the kinetic reference at entry current or carrying an arbitrary amount; composites "
+    "holding Hamiltonian members (ham*2, ham*3, ham+ham, displacement member before/after/between, members whose "
+    "check_move vetoes every attempt or at random) run under HamiltonianCanonical with the real "
+    "HamiltonianCanonicalCriteria, every call of the composite replayed in the model; a case is non-trivial when at "
+    "least one integration step or one draw happens"
 )
 ASSUMPTIONS = [
     "theorems are over the reals; IEEE rounding is absorbed by the stated tolerances (reversal: 1e-9*scale plus the "
@@ -562,6 +577,9 @@ class HMove(common.Suite):
             s["sample"] = rng.random() < 0.85
             n = len(s["symbols"])
             s["zs"] = [[[rng.gauss(0, 1) for _ in range(3)] for _ in range(n)] for _ in range(s["max_attempts"])]
+            # the kinetic reference at entry: that of a context just constructed (= the kinetic energy of the momenta the
+            # atoms carry), or one that already carries what earlier members of a composite did (any other number)
+            s["ref_offset"] = None if rng.random() < 0.6 else rng.uniform(-2.0, 2.0) * KB * s["T"]
             yield s
 
     def real(self, case):
@@ -571,6 +589,9 @@ class HMove(common.Suite):
         rng = ScriptedRNG(case["zs"])
         ctx = q["Ctx"](atoms, rng)
         ctx.temperature = case["T"]
+        if case.get("ref_offset") is not None:
+            ctx.last_kinetic_energy = ke_of(case["momenta"], case["masses"]) + case["ref_offset"]
+        ref0 = float(ctx.last_kinetic_energy)
         drawn = []
 
         def dist(c):
@@ -596,6 +617,7 @@ class HMove(common.Suite):
         ok = mv.attempt_displacement(ctx, sample_momenta=case["sample"])
         return {"ok": bool(ok), "q": atoms.get_positions().tolist(), "p": atoms.get_momenta().tolist(),
                 "last_ke": float(ctx.last_kinetic_energy), "drawn_ke": [ke_of(d, case["masses"]) for d in drawn],
+                "ref0": ref0, "ke0": ke_of(case["momenta"], case["masses"]),
                 "asked": asked, "restored": bool(np.array_equal(atoms.get_positions(), q0) and np.array_equal(atoms.get_momenta(), p0)),
                 "kT": case["T"] * q["kB"], "dt": mv.operation.dt}
 
@@ -606,7 +628,9 @@ class HMove(common.Suite):
                           str(case["steps"]), H.enc_col(case["masses"]), H.enc_arr(case["positions"]),
                           H.enc_arr(case["momenta"]), H.enc_ff(case["ff"]), common.fbits(case["T"] * q["kB"]), str(3 * n),
                           "1" if case["forced"] else "0", "1" if case["sample"] else "0", str(case["max_attempts"]),
-                          H.enc_arrs(case["zs"]), H.enc_checks(case["checks"])])]
+                          H.enc_arrs(case["zs"]), H.enc_checks(case["checks"]),
+                          "-" if case.get("ref_offset") is None else
+                          common.fbits(ke_of(case["momenta"], case["masses"]) + case["ref_offset"])])]
 
     def model_obs(self, case, outs):
         w = outs[0].split()
@@ -630,7 +654,8 @@ class HMove(common.Suite):
             d.append(f"positions differ by {np.abs(rq - mq).max():.3e}")
         if np.abs(rp - mp).max() > tol_p:
             d.append(f"momenta differ by {np.abs(rp - mp).max():.3e}")
-        if not common.close(real["last_ke"], model["last_ke"], 1e-10):
+        kscale = max([abs(x) for x in (real.get("ref0", 0.0), real.get("ke0", 0.0), model["last_ke"]) if not math.isnan(x)] + [0.0])
+        if not common.close(real["last_ke"], model["last_ke"], 1e-10, 1e-12 * kscale):
             d.append(f"last_kinetic_energy real={real['last_ke']!r} model={model['last_ke']!r}")
         return d
 
@@ -645,14 +670,31 @@ class HMove(common.Suite):
         if (first is not None) != obs["ok"]:
             out.append(("hmove:result", f"verdicts {verd} but the call returned {obs['ok']}"))
             return out
+        # the reference at entry minus the kinetic energy at entry: 0 for a move on its own (ke_reference_fresh), what
+        # earlier members of a composite did otherwise (ke_reference_carried)
+        carried = 0.0 if case.get("ref_offset") is None else case["ref_offset"]
+        kscale = max([abs(x) for x in (obs.get("ref0", 0.0), obs.get("ke0", 0.0), *obs["drawn_ke"]) if not math.isnan(x)] + [1e-300])
         if obs["ok"] and case["sample"]:
             if len(obs["drawn_ke"]) != first + 1:
                 out.append(("hmove:draw-count", f"{len(obs['drawn_ke'])} draws for success in attempt {first}"))
-            elif not common.close(obs["last_ke"], obs["drawn_ke"][-1], 1e-12):
-                which = [i for i, k in enumerate(obs["drawn_ke"]) if common.close(k, obs["last_ke"], 1e-12)]
-                out.append((f"hmove:stale-kinetic-energy:attempt={first}",
-                            f"last_kinetic_energy {obs['last_ke']!r} is not the kinetic energy {obs['drawn_ke'][-1]!r} of the "
-                            f"momenta drawn in the successful attempt (matches draws {which})"))
+            elif not abs(obs["last_ke"] - (carried + obs["drawn_ke"][-1])) <= 1e-12 * kscale:
+                which = [i for i, k in enumerate(obs["drawn_ke"]) if abs(carried + k - obs["last_ke"]) <= 1e-12 * kscale]
+                if carried:
+                    out.append(("hmove:reference-not-carried",
+                                f"entered with last_kinetic_energy = kinetic energy of the current momenta + {carried!r} (what earlier "
+                                f"members of a composite did); after a successful draw of kinetic energy {obs['drawn_ke'][-1]!r} it is "
+                                f"{obs['last_ke']!r}, not {carried + obs['drawn_ke'][-1]!r}"))
+                else:
+                    out.append((f"hmove:stale-kinetic-energy:attempt={first}",
+                                f"last_kinetic_energy {obs['last_ke']!r} is not the kinetic energy {obs['drawn_ke'][-1]!r} of the "
+                                f"momenta drawn in the successful attempt (matches draws {which})"))
+        if "ref0" in obs and (not obs["ok"] or not case["sample"]):
+            # nothing of an abandoned draw stays behind; without sampling the reference is not touched at all
+            r0, r1 = obs["ref0"], obs["last_ke"]
+            if not ((math.isnan(r0) and math.isnan(r1)) or r0 == r1):
+                out.append((f"hmove:reference-not-restored:ok={int(obs['ok'])}:sample={int(case['sample'])}",
+                            f"last_kinetic_energy was {r0!r} at entry and is {r1!r} after a call that "
+                            + ("failed (every attempt vetoed)" if not obs["ok"] else "drew no momenta")))
         if not obs["ok"] and not obs["restored"]:
             out.append(("hmove:failed-not-restored", "every attempt vetoed but positions/momenta differ from the start"))
         return out
@@ -660,7 +702,8 @@ class HMove(common.Suite):
     def classify(self, case, obs):
         if "ok" not in obs:
             return "exception"
-        return f"ok={int(obs['ok'])}:attempts={len(obs['asked'])}:sample={int(case['sample'])}:forced={int(case['forced'])}"
+        return (f"ok={int(obs['ok'])}:attempts={len(obs['asked'])}:sample={int(case['sample'])}:forced={int(case['forced'])}"
+                f":reference={'current' if case.get('ref_offset') is None else 'carried'}")
 
 
 # ============================================================================ 6. the driver: energy seen by the criteria
@@ -742,5 +785,322 @@ class HMCDriver(common.Suite):
         return f"{case['ff']['kind']}:acc={sum(1 for x in h if x)}:rej={sum(1 for x in h if x is False)}:fail={sum(1 for x in h if x is None)}"
 
 
+# ============================================================================ 7. Hamiltonian moves inside composites
+
+
+SHAPES = ["ham*2", "ham*2", "ham*3", "ham+ham", "ham+ham", "disp+ham", "ham+disp", "ham+vetoed", "vetoed+ham",
+          "disp+vetoed", "vetoed+disp", "ham+disp+ham", "ham+flaky", "flaky*2", "vetoed"]
+
+
+class RecordingGenerator:
+    """delegates to the simulation's numpy Generator; records the normal draws (the momentum refresh) and the uniform
+    numbers (the acceptance test)"""
+
+    def __init__(self, gen, zs, us):
+        self._gen, self._zs, self._us = gen, zs, us
+
+    def standard_normal(self, *a, **k):
+        z = self._gen.standard_normal(*a, **k)
+        self._zs.append(np.array(z, float))
+        return z
+
+    def random(self, *a, **k):
+        u = self._gen.random(*a, **k)
+        if not a and not k:
+            self._us.append(float(u))
+        return u
+
+    def __getattr__(self, name):
+        return getattr(self._gen, name)
+
+
+def _snap(ctx):
+    a = ctx.atoms
+    return {"q": a.get_positions().tolist(), "p": a.get_momenta().tolist(), "last_ke": float(ctx.last_kinetic_energy)}
+
+
+class HMCComposite(common.Suite):
+    """real HamiltonianCanonical + the real HamiltonianCanonicalCriteria on composites holding Hamiltonian members
+    (`ham * k`, `ham + ham`, displacement members before/after, members whose check_move vetoes every attempt):
+    the energy difference the acceptance test uses equals the sum of the members' own total-energy changes, computed
+    here from the recorded positions and momenta with the analytic potential (never from the context); a member that
+    failed leaves positions, momenta and the kinetic reference as it found them; the decision is the Metropolis
+    decision for that sum and the recorded uniform number.  Each call of the composite is also replayed in the Lean
+    model (`hcomp`: draws, verdicts and displaced positions as recorded)."""
+
+    name = "hmc-composites"
+
+    def cases(self, rng, tier):
+        k = 30 if tier == "quick" else 240
+        for i in range(k):
+            s = gen_system(rng, nmax=4, kinds=("harm", "quart", "morse", "zero"))
+            s["shape"] = SHAPES[i % len(SHAPES)] if i < 2 * len(SHAPES) else rng.choice(SHAPES)
+            s["hams"] = []
+            for _ in range(3):
+                s["hams"].append({"dt_fs": rng.choice([0.1, 0.3, 0.8]) / s["wmax"] / FS, "steps": rng.choice([1, 2, 5]),
+                                  "max_attempts": rng.randint(1, 3), "veto_seed": rng.randrange(2**31)})
+            s["nsteps"] = 6 if tier == "quick" else 15
+            s["seed"] = rng.randrange(1, 2**31)
+            yield s
+
+    # -- the composite named by case["shape"], built with the package's own `+` and `*`
+    def build(self, q, case, log, cur):
+        import random as _r
+
+        from quansino.moves.composite import CompositeMove
+        from quansino.moves.displacement import DisplacementMove
+
+        n = len(case["symbols"])
+        masses = np.array(case["masses"], float)
+        made = {"n": 0}
+
+        def recording(cls):
+            class Recorded(cls):
+                def __call__(self, context):
+                    if cur.get("start") is None:
+                        cur["start"] = _snap(context)
+                        cur["start"]["last_pe"] = float(context.last_potential_energy)
+                    rec = {"tag": self.tag, "kind": self.kind, "enter": _snap(context), "attempts": []}
+                    if self.kind == "ham":
+                        rec.update(steps=self.spec["steps"], max_attempts=self.max_attempts)
+                    cur["members"].append(rec)
+                    self.rec = rec
+                    ok = super().__call__(context)
+                    rec["ok"] = bool(ok)
+                    rec["exit"] = _snap(context)
+                    return ok
+
+            Recorded.__name__ = cls.__name__
+            Recorded.__qualname__ = cls.__qualname__
+            return Recorded
+
+        def ham(mode):
+            spec = case["hams"][made["n"] % len(case["hams"])]
+            made["n"] += 1
+
+            def dist(c):
+                r = q["mb"](c)
+                mv.rec["attempts"].append({"drawn": c.atoms.get_momenta().tolist(), "z": log["zs"][-1].tolist(),
+                                           "ke_after_draw": float(c.last_kinetic_energy)})
+                return r
+
+            mv = recording(q["Move"])(distribution=dist, operation=q["Verlet"](dt=spec["dt_fs"], max_steps=spec["steps"]))
+            mv.tag, mv.kind, mv.spec = f"ham{made['n']}:{mode}", "ham", spec
+            mv.max_attempts = spec["max_attempts"]
+            vr = _r.Random(spec["veto_seed"])
+
+            def check(context, *_a, **_k):
+                v = {"never": True, "always": False}.get(mode)
+                if v is None:
+                    v = vr.random() >= 0.5
+                mv.rec["attempts"][-1].update(verdict=v, q=context.atoms.get_positions().tolist(),
+                                              p=context.atoms.get_momenta().tolist())
+                return v
+
+            mv.check_move = check
+            return mv
+
+        def disp():
+            made["n"] += 1
+            mv = recording(DisplacementMove)(np.arange(n))
+            mv.tag, mv.kind = f"disp{made['n']}", "disp"
+            return mv
+
+        shape = case["shape"]
+        if shape.startswith("ham*"):
+            return ham("never") * int(shape[4:])
+        if shape == "flaky*2":
+            return ham("flaky") * 2
+        parts = []
+        for w in shape.split("+"):
+            parts.append(disp() if w == "disp" else ham({"ham": "never", "vetoed": "always", "flaky": "flaky"}[w]))
+        if len(parts) == 1:
+            return CompositeMove(parts)
+        comp = parts[0]
+        for m in parts[1:]:
+            comp = comp + m
+        return comp
+
+    def real(self, case):
+        q = _import()
+        from quansino.mc.canonical import HamiltonianCanonical
+        from quansino.mc.criteria import HamiltonianCanonicalCriteria
+
+        atoms = H.make_atoms(case)
+        attach_calc(atoms, case["ff"])
+        log = {"zs": [], "us": []}
+        cur = {"start": None, "members": []}
+        comp = self.build(q, case, log, cur)
+        mc = HamiltonianCanonical(atoms, temperature=case["T"], seed=case["seed"], max_cycles=1)
+        crit = HamiltonianCanonicalCriteria()
+        mc.add_move(comp, criteria=crit, name="composite")
+        common.set_rng(mc, RecordingGenerator(common.get_rng(mc), log["zs"], log["us"]), context=True)
+        orig = crit.evaluate
+
+        def ev(ctx):
+            cur["eval"] = {"q": atoms.get_positions().tolist(), "p": atoms.get_momenta().tolist(),
+                           "last_ke": float(ctx.last_kinetic_energy), "last_pe": float(ctx.last_potential_energy),
+                           "total": float(atoms.get_total_energy())}
+            nu = len(log["us"])
+            v = orig(ctx)
+            cur["eval"]["u"] = log["us"][nu] if len(log["us"]) == nu + 1 else None
+            return v
+
+        crit.evaluate = ev
+        trials = []
+        aborted = None
+        try:
+            for _ in mc.srun(case["nsteps"]):
+                v = mc.move_history[-1][1] if mc.move_history else None
+                cur["verdict"] = None if v is None else bool(v)
+                cur["after"] = _snap(mc.context)
+                trials.append(dict(cur))
+                cur.clear()
+                cur.update(start=None, members=[])
+        except OverflowError as ex:  # math.exp overflow in the criteria: a defect of C02, not of this property
+            aborted = type(ex).__name__
+        obs = {"trials": trials, "kT": case["T"] * q["kB"], "aborted": aborted,
+               "types": [type(comp).__name__, len(comp.moves)],
+               "dts": {m.tag: m.operation.dt for m in comp.moves if m.kind == "ham"}}
+        if not hasattr(self, "_obs"):
+            self._obs = {}
+        self._obs[common.dumps(case)] = obs
+        return obs
+
+    # -- independent bookkeeping
+    @staticmethod
+    def member_delta(case, mem):
+        """total-energy change of the member's own trajectory: H after - H before, H before = potential energy of the
+        positions it started from + kinetic energy of the momenta it drew; a displacement member changes the potential
+        energy only; a failed member changes nothing"""
+        if not mem["ok"]:
+            return 0.0
+        pe = lambda x: float(H.ff_eval(case["ff"], np.array(x, float))[0])  # noqa: E731
+        if mem["kind"] == "disp":
+            return pe(mem["exit"]["q"]) - pe(mem["enter"]["q"])
+        a = mem["attempts"][-1]
+        return (pe(mem["exit"]["q"]) + ke_of(mem["exit"]["p"], case["masses"])) - (pe(mem["enter"]["q"]) + ke_of(a["drawn"], case["masses"]))
+
+    def oracle(self, case, obs):
+        e = exc_oracle("hmc-composite", obs)
+        if e:
+            return e
+        out = []
+        shape = case["shape"]
+        kT = obs["kT"]
+        for ti, t in enumerate(obs["trials"]):
+            for mem in t["members"]:
+                if mem["ok"]:
+                    continue
+                # C03: a member that failed leaves nothing of its abandoned draws behind
+                if mem["exit"]["q"] != mem["enter"]["q"] or mem["exit"]["p"] != mem["enter"]["p"]:
+                    out.append((f"hmc-composite:failed-member-not-restored:{shape}",
+                                f"trial {ti}: member {mem['tag']} failed but positions/momenta differ from those it found"))
+                elif not common.close(mem["exit"]["last_ke"], mem["enter"]["last_ke"], 1e-12):
+                    drawn = [ke_of(a["drawn"], case["masses"]) for a in mem["attempts"]]
+                    out.append((f"hmc-composite:abandoned-draw-in-kinetic-reference:{shape}",
+                                f"trial {ti}: member {mem['tag']} failed (all {len(mem['attempts'])} attempts vetoed, positions and "
+                                f"momenta restored) but context.last_kinetic_energy went from {mem['enter']['last_ke']!r} to "
+                                f"{mem['exit']['last_ke']!r}; kinetic energies of its abandoned draws: {drawn}"))
+            if "eval" not in t:
+                if t["verdict"] is None and t["start"] is not None and not common.close(t["after"]["last_ke"], t["start"]["last_ke"], 1e-12) \
+                        and not any(s.startswith("hmc-composite:abandoned") for s, _ in out):
+                    out.append((f"hmc-composite:abandoned-draw-in-kinetic-reference:{shape}",
+                                f"trial {ti} failed as a whole but context.last_kinetic_energy changed"))
+                continue
+            ev = t["eval"]
+            want = sum(self.member_delta(case, mem) for mem in t["members"])
+            used = ev["total"] - ev["last_pe"] - ev["last_ke"]
+            scale = max(1e-3, abs(ev["total"]), abs(ev["last_pe"]), abs(ev["last_ke"]))
+            if not abs(used - want) <= 1e-9 * scale:
+                parts = [(mem["tag"], mem["ok"], self.member_delta(case, mem)) for mem in t["members"]]
+                out.append((f"hmc-composite:energy-difference:{shape}",
+                            f"trial {ti}: the acceptance test uses E_new - last_potential_energy - last_kinetic_energy = {used!r}, the "
+                            f"members' total-energy changes add up to {want!r} (members: {parts}; kT = {kT:.4g})"))
+            elif ev.get("u") is not None and t["verdict"] is not None:
+                x = -want / kT
+                expect = True if x >= 0 else ev["u"] < math.exp(x)
+                border = x < 0 and abs(ev["u"] - math.exp(x)) <= 1e-6 * math.exp(x) + 1e-300
+                if expect != t["verdict"] and not border:
+                    out.append((f"hmc-composite:decision:{shape}",
+                                f"trial {ti}: total-energy change {want!r}, u = {ev['u']!r}, exp(-dH/kT) = {math.exp(min(x, 0.0))!r} "
+                                f"but the trial was {'accepted' if t['verdict'] else 'rejected'}"))
+            if len(out) >= 3:
+                break
+        # one signature per kind is enough
+        seen, uniq = set(), []
+        for s_, m_ in out:
+            if s_ not in seen:
+                seen.add(s_)
+                uniq.append((s_, m_))
+        return uniq
+
+    # -- the model replays every call of the composite
+    def model_lines(self, case):
+        obs = getattr(self, "_obs", {}).get(common.dumps(case))
+        if not obs or "trials" not in obs:
+            return []
+        n = len(case["symbols"])
+        lines = []
+        for t in obs["trials"]:
+            if t["start"] is None:
+                continue
+            mems = []
+            for mem in t["members"]:
+                if mem["kind"] == "disp":
+                    mems.append("D/" + (H.enc_arr(mem["exit"]["q"]) if mem["ok"] else "fail"))
+                else:
+                    mems.append("/".join(["H", "1", common.fbits(obs["dts"][mem["tag"]]), str(mem["steps"]), "0",
+                                          str(mem["max_attempts"]), H.enc_arrs([a["z"] for a in mem["attempts"]]),
+                                          H.enc_checks([a["verdict"] for a in mem["attempts"]])]))
+            lines.append(" ".join(["hcomp", str(n), "none", H.enc_col(case["masses"]), H.enc_arr(t["start"]["q"]),
+                                   H.enc_arr(t["start"]["p"]), H.enc_ff(case["ff"]), common.fbits(obs["kT"]), str(3 * n),
+                                   common.fbits(t["start"]["last_ke"]), "|".join(mems)]))
+        return lines
+
+    def model_obs(self, case, outs):
+        return {"outs": outs}
+
+    def compare(self, case, real, model):
+        if "exception" in real:
+            return []
+        n = len(case["symbols"])
+        d = []
+        ts = [t for t in real["trials"] if t["start"] is not None]
+        for i, (t, o) in enumerate(zip(ts, model["outs"])):
+            w = o.split()
+            if w[0] != "ok":
+                d.append(f"trial {i}: model answered {o[:60]}")
+                continue
+            end = t["members"][-1]["exit"]
+            ok = any(mem["ok"] for mem in t["members"])
+            if (w[1] == "true") != ok:
+                d.append(f"trial {i}: composite returned {ok}, model {w[1]}")
+            rq, rp = np.array(end["q"]), np.array(end["p"])
+            mq, mp = H.dec_arr(w[2], n), H.dec_arr(w[3], n)
+            qmax = max(1.0, float(np.abs(rq).max()))
+            pmax = max(1.0, float(np.abs(rp).max()))
+            dtmin = min(real["dts"].values()) if real["dts"] else 1.0
+            tol_p = 1e-9 * pmax + 1e3 * EPS * 15 * max(case["masses"]) * qmax / dtmin
+            if np.abs(rq - mq).max() > 1e-9 * qmax:
+                d.append(f"trial {i}: positions differ by {np.abs(rq - mq).max():.3e}")
+            if np.abs(rp - mp).max() > tol_p:
+                d.append(f"trial {i}: momenta differ by {np.abs(rp - mp).max():.3e}")
+            mk = common.bitsf(w[4])
+            kscale = max(abs(end["last_ke"]), ke_of(end["p"], case["masses"]), 1e-6)
+            if not (math.isnan(mk) and math.isnan(end["last_ke"])) and not abs(mk - end["last_ke"]) <= 1e-8 * kscale:
+                d.append(f"trial {i}: last_kinetic_energy after the composite: real {end['last_ke']!r}, model {mk!r}")
+            if len(d) >= 4:
+                break
+        return d
+
+    def classify(self, case, obs):
+        ts = obs.get("trials")
+        if not ts:
+            return "exception" if "exception" in obs else None
+        return (f"{case['shape']}:{case['ff']['kind']}:acc={sum(1 for t in ts if t['verdict'])}:rej={sum(1 for t in ts if t['verdict'] is False)}"
+                f":fail={sum(1 for t in ts if t['verdict'] is None)}")
+
+
 def suites(tier):
-    return [VerletModel(), Reversal(), EnergyOrder(), MaxwellBoltzmann(), HMove(), HMCDriver()]
+    return [VerletModel(), Reversal(), EnergyOrder(), MaxwellBoltzmann(), HMove(), HMCDriver(), HMCComposite()]
